@@ -7,7 +7,9 @@ SPEC = {
          "configs": [c for c in CPU_OFF if c["name"] != "default"], "quick_configs": ["purego", "alloff"], "shards": {"quick": 1, "thorough": 2}},
     ],
     "rule": "case = (scheme, key seed, encapsulation seed, alteration) drawn by rapid from edge-biased seeds over all 21 KEM schemes "
-            "(kem/schemes.All() + the two HPKE-only hybrids); thorough adds every single-bit flip of one honest ciphertext per scheme. "
+            "(kem/schemes.All() + the two HPKE-only hybrids); alterations = bit flips, short edits, all-zero / all-one ciphertexts, a valid ciphertext for another key or seed, non-canonical aliases of the X25519/X448 share and special field values (small order, p, p+-1) in its place; "
+            "every honest and altered ciphertext is also decapsulated with the typed DecapsulateTo into buffers that hold the honest secret, a constant, or the head of the ciphertext buffer; a concurrent sub-check uses one key pair from 2..6 goroutines while 1..2 others serialise it; "
+            "every single-bit flip of one honest ciphertext per scheme is enumerated. "
             "non-trivial = the case contains an altered ciphertext whose decapsulation returned without error (FO/implicit-rejection or combiner path exercised), "
             "a marshal/unmarshal round trip, or a wrong-sender auth decapsulation; distinct by FNV-64 of (sub-check, seeds, alteration, ciphertext)",
     "assumptions": COMMON_ASSUME + ["x/crypto/sha3 SHAKE256/SHA3-256 used to recompute the ML-KEM / Kyber rejection secret"],
